@@ -208,6 +208,13 @@ def run_check(prop, tier, seed, runs=None, workers=None, wall_cap=None):
         print(line)
     print("DONE property=%s runs=%d rejected=%d violations=%d pairs=%d mismatches=%d wall=%.1fs"
           % (prop, len(executed), len(rejected), n_viol, pairs_compared, len(mismatches), wall), flush=True)
+    reasons = {}
+    for r in rejected:
+        for reason in (r.get("reject_reasons") or ["?"]):
+            key = str(reason)[:160]
+            reasons[key] = reasons.get(key, 0) + 1
+    for key, count in sorted(reasons.items(), key=lambda kv: -kv[1])[:4]:
+        print("NOTE: %d generated scenario(s) not used: %s" % (count, key))
     if mismatches and prop not in HASH_SEED_IS_PROPERTY:
         print("NOTE: %d runs gave different event logs under two hash seeds (recorded in evidence; not part of %s)" % (len(mismatches), prop))
     if violation_lines:
